@@ -282,6 +282,12 @@ def run(ctx):
     es = T.htable(["-mode", "e2esweep", "-n", 2 if ctx.tier == "thorough" else 1, "-seed", seed], timeout=1800)
     ctx.cov["statement_size_sweep"] = T.check_e2e_sweep(ctx, es, ("orderlimit",))
     ctx.cov["statement_size_sweep_note"] = "statements over graphs of 13..4099 (thorough: ..16385) triples, result compared with the spec in Python, not evaluated in Coq"
+    # two operations on different tables at the same time give what each gives alone
+    for cc in T.htable(["-mode", "conc", "-n", 25 * mult, "-seed", seed]):
+        if cc["op"] in ("sort", "statement"):
+            ctx.cov.setdefault("concurrent_pairs", {})[cc["op"]] = cc["trials"]
+            if cc["mismatches"]:
+                ctx.violation({"kind": "two concurrent operations on different tables disturb each other", "case": cc})
     mark("sweep")
     # ---- the two ORACLE order laws (assumed by C12_sorted_time_partial / C12_sorted_time_float_partial), sampled on Go's renderings
     samples = T.htable(["-mode", "oracle", "-n", 2000 * mult, "-seed", seed])
